@@ -146,8 +146,14 @@ func runC07(c *Ctx) {
 	}
 	if ess := pkgFn(c, "C07-R2", "wallet/txsizes", "EstimateSerializeSize"); ess != nil {
 		okOut := false
+		changeFlag := -1
+		for i, prm := range ess.Params {
+			if isBoolType(prm.Type()) {
+				changeFlag = i
+			}
+		}
 		for _, call := range callsNamed(ess, "VarIntSerializeSize") {
-			if countsChange(p, call.Call.Args[0], ess) {
+			if countsChange(p, call.Call.Args[0], ess) || (changeFlag >= 0 && countsChangeViaHelper(p, call.Call.Args[0], ess, changeFlag)) {
 				okOut = true
 			}
 		}
@@ -312,26 +318,36 @@ func checkVirtualSize(c *Ctx, fn *ssa.Function) {
 			outVar = true
 		}
 	}
-	// a term of the estimate extracted into a same-package helper: its varint calls, in the estimator's terms
-	for _, ci := range callsOf(fn) {
-		cs, ok := ci.(*ssa.Call)
-		if !ok {
-			continue
-		}
-		h := cs.Call.StaticCallee()
-		if h == nil || h == fn || len(h.Blocks) == 0 || fnPkgPath(h) != fnPkgPath(fn) || h.Object() == nil || h.Object().Exported() {
-			continue
-		}
-		for _, call := range callsNamed(h, "VarIntSerializeSize") {
-			l := p.substParams(p.linearize(call.Call.Args[0], 0), cs).String()
-			switch {
-			case l == allKinds.String():
-				inputVar = true
-			case l == witKinds.String():
-				witVar = true
+	// a term of the estimate extracted into a same-package helper (or a method of a small struct holding the counts):
+	// its varint calls, read in the estimator's terms (the helper's parameters bound to the call's arguments)
+	var visit func(f *ssa.Function, depth int)
+	visit = func(f *ssa.Function, depth int) {
+		for _, ci := range callsOf(f) {
+			cs, ok := ci.(*ssa.Call)
+			if !ok {
+				continue
 			}
+			h := cs.Call.StaticCallee()
+			if h == nil || h == f || len(h.Blocks) == 0 || fnPkgPath(h) != fnPkgPath(fn) || h.Object() == nil || h.Object().Exported() {
+				continue
+			}
+			p.withFrame(h, cs.Call.Args, func() {
+				for _, call := range callsNamed(h, "VarIntSerializeSize") {
+					l := p.linearize(call.Call.Args[0], 0).String()
+					switch {
+					case l == allKinds.String():
+						inputVar = true
+					case l == witKinds.String():
+						witVar = true
+					}
+				}
+				if depth < 2 {
+					visit(h, depth+1)
+				}
+			})
 		}
 	}
+	visit(fn, 0)
 	c.Check("C07-R2", "input-count-varint-sums-all-kinds", fn.Pos(), inputVar, "no VarIntSerializeSize call is fed the sum of all input-kind parameters")
 	c.Check("C07-R2", "witness-count-varint-sums-witness-kinds", fn.Pos(), witVar, "no VarIntSerializeSize call is fed the sum of the witness-bearing input kinds")
 	c.Check("C07-R2", "output-count-varint-includes-change:EstimateVirtualSize", fn.Pos(), outVar,
@@ -870,9 +886,38 @@ func checkAuthor(c *Ctx, fn *ssa.Function) {
 			base := call.Call.Args[0]
 			fromOutputs := false
 			sl := &Slicer{P: p}
+			isOutputsParam := func(v ssa.Value) bool {
+				prm, ok := stripConv(p.resolveParam(v)).(*ssa.Parameter)
+				return ok && prm.Parent() == fn && paramIndex(fn, prm) == 0
+			}
 			for _, o := range sl.Origins(base) {
-				if prm, ok := stripConv(p.resolveParam(o)).(*ssa.Parameter); ok && prm.Parent() == fn && paramIndex(fn, prm) == 0 {
+				if isOutputsParam(o) {
 					fromOutputs = true
+				}
+				// the part is handed the transaction under construction: its output list is what the caller put into
+				// that field (TxOut: outputs)
+				if u, isLoad := o.(*ssa.UnOp); isLoad && u.Op == token.MUL {
+					if fa, isFA := u.X.(*ssa.FieldAddr); isFA {
+						if q, isPrm := fa.X.(*ssa.Parameter); isPrm && q.Parent() == cf && cf != fn {
+							if al, isAl := stripConv(p.resolveParam(q)).(*ssa.Alloc); isAl {
+								for _, use := range usesOf(al) {
+									fa2, ok := use.(*ssa.FieldAddr)
+									if !ok || fa2.Field != fa.Field {
+										continue
+									}
+									for _, uu := range usesOf(fa2) {
+										if st, ok := uu.(*ssa.Store); ok && st.Addr == ssa.Value(fa2) {
+											for _, o2 := range sl.Origins(st.Val) {
+												if isOutputsParam(o2) {
+													fromOutputs = true
+												}
+											}
+										}
+									}
+								}
+							}
+						}
+					}
 				}
 			}
 			if !fromOutputs {
